@@ -122,6 +122,12 @@ func VerifC01Point() {
 	line = append(line, '=')
 	line = append(line, c01Esc(tv, 1)...)
 	line = append(line, ' ')
+	lead := zz.ParamInt("lead_field", 0)
+	if lead == 1 {
+		// the focused field is the SECOND field of the point: a fixed field a=1i precedes it
+		zz.Assume(!zz.EqBytes(fk, []byte("a")))
+		line = append(line, 'a', '=', '1', 'i', ',')
+	}
 	line = append(line, c01Esc(fk, 1)...)
 	line = append(line, '=')
 	line = append(line, ftext...)
@@ -161,7 +167,11 @@ func VerifC01Point() {
 	gotTV, okT := r.Tags[string(tk)]
 	zz.Assert(okT, "tag key differs from what the escaping rules denote")
 	zz.Assert(zz.Implies(okT, zz.EqStr(gotTV, string(tv))), "tag value differs from what the escaping rules denote")
-	zz.Assert(len(r.Fields) == 1, "field set has the wrong size")
+	zz.Assert(len(r.Fields) == 1+lead, "field set has the wrong size")
+	if lead == 1 {
+		lv, lok := r.Fields["a"].(int64)
+		zz.Assert(lok && lv == 1, "the first field of a two-field point changed")
+	}
 	gotF, okF := r.Fields[string(fk)]
 	zz.Assert(okF, "field key differs from what the escaping rules denote")
 	if okF {
